@@ -2,10 +2,11 @@ INIT Init
 NEXT Next
 VIEW view
 CONSTANTS
-  PNorm <- AlphaFull
-  PLit <- NoChars
+  PNorm <- AlphaWild
+  PLit <- LitCore
   PMacro <- NoChars
-  PLen = 4
+  PLen = 2
   SAlpha <- StrFull
-  SLen = 3
+  SLen = 2
+  Kind = "shell"
 INVARIANT Emit
